@@ -397,4 +397,86 @@ example : getFractPartIdx #['0', '.', '1', '4', '0'] 1 = .ok ['1', '4'] := by de
 example : getFractPartIdx #['1', '.', '0', '0'] 0 = .ok [] := by decide
 example : cycleEndpointIdx #['$', 'A', 'b', '$', '1', '2'] = .ok (['A', 'b'], ['1', '2'], 6) := by decide
 
+/-! ### `structured_references.rs::consume_column_reference` -/
+
+theorem columnRefLoop_no_panic (chars : Array Char) (e : Char) :
+    ∀ fuel position, columnRefLoop chars e fuel position ≠ .panic := by
+  intro fuel
+  induction fuel with
+  | zero => intro p; simp [columnRefLoop]
+  | succ n ih =>
+    intro p
+    unfold columnRefLoop
+    split
+    · rename_i h
+      rw [getElem?_of_lt chars p h]
+      simp only []
+      split
+      · split
+        · split
+          · simp
+          · exact ih _
+        · exact ih _
+      · simp
+    · simp
+
+/-- the scan never moves backwards and never passes the end of the input -/
+theorem columnRefLoop_bounds (chars : Array Char) (e : Char) :
+    ∀ fuel position q, position ≤ chars.size → columnRefLoop chars e fuel position = .ok (some q) →
+      position ≤ q ∧ q ≤ chars.size := by
+  intro fuel
+  induction fuel with
+  | zero => intro p q _; simp [columnRefLoop]
+  | succ n ih =>
+    intro p q hp
+    unfold columnRefLoop
+    split
+    · rename_i h
+      rw [getElem?_of_lt chars p h]
+      simp only []
+      split
+      · split
+        · split
+          · simp
+          · rename_i hne
+            intro hq
+            have := ih (p + 1 + 1) q (by omega) hq
+            omega
+        · intro hq
+          have := ih (p + 1) q (by omega) hq
+          omega
+      · intro hq; simp at hq; omega
+    · intro hq; simp at hq; omega
+
+theorem no_panic_consume_column_reference (chars : Array Char) (start : Nat) (hs : start ≤ chars.size) :
+    consumeColumnReference chars start ≠ .panic := by
+  unfold consumeColumnReference
+  simp only []
+  have hstart : (if chars[start]? = some '[' then start + 1 else start) ≤ chars.size := by
+    split
+    · rename_i h
+      by_cases hlt : start < chars.size
+      · omega
+      · have : chars[start]? = none := by simp; omega
+        rw [this] at h; simp at h
+    · exact hs
+  generalize (if chars[start]? = some '[' then start + 1 else start) = st at hstart
+  cases h : columnRefLoop chars (if chars[start]? = some '[' then ']' else ')') (chars.size + 1) st with
+  | panic => exact absurd h (columnRefLoop_no_panic chars _ _ _)
+  | fuel => simp
+  | ok r =>
+    cases r with
+    | none => simp
+    | some q =>
+      have b := columnRefLoop_bounds chars _ _ _ _ hstart h
+      have hsl : slice chars st q = .ok ((chars.toList.drop st).take (q - st)) := by
+        unfold slice; simp [b]
+      simp only [hsl]
+      simp
+
+/-- the new position never exceeds `len + 1` (it IS `len + 1` for an unclosed `[name`) -/
+example : consumeColumnReference #['[', 'a', '\'', ']', 'b', ']', '+'] 0 = .ok (some (['a', '\'', ']', 'b'], 6)) := by decide
+example : consumeColumnReference #['[', 'a', '\''] 0 = .ok none := by decide
+example : consumeColumnReference #['[', 'a'] 0 = .ok (some (['a'], 3)) := by decide
+
 end IronCalc.Props.C11
